@@ -259,6 +259,20 @@ fn main() {
             }
         }
     }
-    c.add_sweep(&format!("mmio-probe: 35 magic values x 5 versions x {} device ids (0..63, single bits, known ids with high bits set, all-ones) x 5 region sizes", ids.len()), pe, classes.len() as u64, true, J::obj().set("accepted", J::i(accepted)));
+    // Devices whose Status register is not 0 when they are probed.
+    for status in [1u32, 3, 0xb, 0xf, 0x4f, 0x80] {
+        for (m, ver, id, size) in [(0x7472_6976u32, 1u32, 2u32, 0x200usize), (0x7472_6976, 2, 2, 0x200), (0x7472_6976, 2, 19, 0x100), (0x7472_6976, 1, 1, 0x100), (0x7472_6976, 3, 2, 0x200), (0x7472_6976, 2, 0, 0x200), (0, 2, 2, 0x200), (0x7472_6976, 2, 2, 0xff)] {
+            let (acc_, v) = c10::run_probe_status(m, ver, id, size, status);
+            pe += 1;
+            if acc_ {
+                accepted += 1;
+            }
+            classes.insert((acc_, m == 0x7472_6976, ver, c10::known_device_id(id), size >= 0x100));
+            for (k, d) in v {
+                c.add_violation(Violation::new("C10", k, format!("probe magic {:#x} version {} id {} size {:#x} device status {:#x}: {}", m, ver, id, size, status, d)), "mmio-probe", J::obj().set("kind", J::s("probe")).set("magic", J::i(m)).set("version", J::i(ver)).set("id", J::i(id)).set("size", J::i(size)).set("status", J::i(status)), vec![]);
+            }
+        }
+    }
+    c.add_sweep(&format!("mmio-probe: 35 magic values x 5 versions x {} device ids (0..63, single bits, known ids with high bits set, all-ones) x 5 region sizes, and 8 headers x 6 non-zero device status values", ids.len()), pe, classes.len() as u64, true, J::obj().set("accepted", J::i(accepted)));
     c.finish();
 }
